@@ -460,8 +460,24 @@ func (pe *PebbleEng) MultiGetBytes(keyList [][]byte, values [][]byte, errs []err
 		}
 		return
 	}
+	// read all keys from one snapshot (as the rocksdb MultiGet does): a batch committed
+	// while we are reading must be seen completely or not at all
+	snap := pe.eng.NewSnapshot()
+	defer snap.Close()
 	for i, k := range keyList {
-		values[i], errs[i] = pe.GetBytesNoLock(k)
+		val, c, err := snap.Get(k)
+		if err != nil && err != pebble.ErrNotFound {
+			values[i], errs[i] = nil, err
+			continue
+		}
+		values[i], errs[i] = nil, nil
+		if val != nil {
+			values[i] = make([]byte, len(val))
+			copy(values[i], val)
+		}
+		if c != nil {
+			c.Close()
+		}
 	}
 }
 
